@@ -6,6 +6,7 @@
   specifies version first; the repository's own test pins the code's order, so it is recorded, not repaired.
 -/
 import GoBT.Addr.Bip276
+import GoBT.Props.C17RT
 namespace GoBT.C17
 open GoBT GoBT.Addr
 
@@ -74,8 +75,16 @@ theorem validate_script_iff_decodes (H : Bytes → Bytes) (txt : List Char) :
   | ok b => simp
   | error e => simp
 
-/-! ### non-vacuity / executable round trip on concrete values (the unbounded round-trip theorem is still open;
-    all 65,025 version/network pairs are enumerated by the correspondence check on every run) -/
+/-- **Round trip** (proof in GoBT/Props/C17RT.lean): for every non-empty prefix without a newline, version and
+    network in 1..255, payload, and checksum function with at least four bytes of output, DecodeBIP276 of the
+    EncodeBIP276 text returns exactly the encoded fields. -/
+theorem bip276_round_trip (H : Bytes → Bytes) (hH : ∀ x, 4 ≤ (H x).length) (b : Bip276) (txt : List Char)
+    (hp : b.pfx ≠ []) (hnl : ∀ c ∈ b.pfx, c ≠ '\n') (h : encodeBip276 H b = some txt) :
+    decodeBip276 H txt = .ok b :=
+  decode_encode H hH b txt hp hnl h
+
+/-! ### non-vacuity / executable round trip on concrete values (all 65,025 version/network pairs are also enumerated by
+    the correspondence check on every run) -/
 example : let H : Bytes → Bytes := fun _ => [0xde, 0xad, 0xbe, 0xef]
     (encodeBip276 H { pfx := "bitcoin-script".toList, version := 10, network := 2, data := [0x51, 0xff] }).map
       (decodeBip276 H) = some (.ok { pfx := "bitcoin-script".toList, version := 10, network := 2, data := [0x51, 0xff] }) := by
